@@ -121,8 +121,14 @@ def run(tier):
             violations.append({"kind": "push0-pricing-inconsistent", "input": text, "options": opts,
                                "what": "%s side of %s under %s: tool prices (gas,bytes,len)=%s, reference with the same flag %s" % (side, text, opts, tool, o)})
     # (c) contract selection
-    for name, d in dl[4:8]:
-        for cname in [k for k, v in d["contracts"].items() if v.get("asm")][:2]:
+    # contracts whose short names are suffixes / prefixes of one another: the selection must be exact
+    rel = [("rel%d.json_solc" % i, docs.make_doc(sd * 77 + i, ncontracts=3, nblocks=3, naming="related")) for i in range(2 if tier == "quick" else 10)]
+    for (nm, d), r in zip(rel, docrun.run_docs(rel, ["-greedy"])):
+        on = nm.split(".")[0] + "_optimized.json_solc"
+        if r["status"] == "ok" and r["res"] and on in r["res"]["files"]:
+            full[nm] = json.loads(r["res"]["files"][on])
+    for name, d in dl[4:8] + rel:
+        for cname in [k for k, v in d["contracts"].items() if v.get("asm")][:3]:
             short = cname.split("/")[-1].split(":")[-1]
             r = docrun.run_docs([(name, d)], ["-greedy", "-c", short])[0]
             res = r["res"]
